@@ -929,7 +929,7 @@ theorem verifyHTLC_sound (env : Env) (p : Proof) (s : Secret) (h : verifyHTLC en
           | none => simp [hd] at hc
           | some bytes =>
             simp only [hd] at hc
-            by_cases h64 : s.data.length ≠ 64
+            by_cases h64 : s.data.utf8ByteSize ≠ 64
             · rw [if_pos h64] at hc; cases hc
             · rw [if_neg h64] at hc
               by_cases hh : env.sha256hex bytes ≠ s.data
@@ -996,7 +996,7 @@ theorem opens_of_checkPreimage {env : Env} {pre data : String} (hc : checkPreima
   | none => simp [hd] at hc
   | some bytes =>
     simp only [hd] at hc
-    by_cases h64 : data.length ≠ 64
+    by_cases h64 : data.utf8ByteSize ≠ 64
     · rw [if_pos h64] at hc; cases hc
     · rw [if_neg h64] at hc
       by_cases hh : env.sha256hex bytes ≠ data
